@@ -274,6 +274,10 @@ def build(j, fns):
                 inv = inv.specs(*pos, **kw)
             else:
                 inv = inv.star(args=pos[0] if pos else None, kwargs=kw['**'] if kw else None)
+            # a prefix spec is re-used after being extended: deriving siblings from it must not alter it
+            for name in ('u', 'w'):
+                inv.constants(**{name: 'sibling'})
+                inv.specs(**{name: glom.Val('sibling')})
         return inv
     if k == 'ref':
         if j.get('sub') is not None:
